@@ -60,6 +60,9 @@ def gather(prop, cfgs, only=None):
             except (P.tu.ExtractionError, P.cxx2c.Abort) as e:
                 problems.append('%s: %s: %s' % (cfg, cn, e))
                 continue
+            if ob.missing_models:
+                problems.append('%s: %s (%s): missing instruction model(s): %s' % (cfg, fn['name'], cn, ' '.join(ob.missing_models)))
+                continue
             n += 1
             if ob.key in obs:
                 obs[ob.key].cfgs.append(cfg)
